@@ -86,7 +86,7 @@ def run(facts, R):
         cb = facts.body(pipe)
         rows = value_rows(cb, Sym(cb), facts, 0)
         okrows = [(g, v) for g, v in rows if "from_residual" not in v]
-        ok = len(okrows) == 1 and okrows[0][1].startswith("ChunkSink::flush_remaining(")
+        ok = len(okrows) >= 1 and all(v.startswith("ChunkSink::flush_remaining(") for g, v in okrows)
         R.check(ok, "one-terminal", cb.path, "Ok only through flush_remaining", "pipeline closure can succeed as %s" % [v[:80] for g, v in okrows], cb.span, "all other exits are `?` errors")
         fl = [(i, t) for i, t in cb.calls() if callee_matches(t["callee"], VS + "ChunkSink::flush_remaining")]
         bodycalls = [term_pt(cb, x) for x, y in cb.calls() if y["callee"]["name"] in ("call_once", "call", "call_mut") and "body" in render(Sym(cb).op(y["args"][0]))]
@@ -227,7 +227,7 @@ def run(facts, R):
         alts = [texts(a) for a in path_facts(nh, ns, facts, i)]
         ok = bool(alts)
         for fs in alts:
-            is_err = any(x.endswith("is Err") and "pull" in x for x in fs) or (any(x.endswith("is Err") for x in fs) and not any(x.endswith("is Ok") and "pull" in x for x in fs))
+            is_err = any(x.endswith("is Err") for x in fs)
             is_last = any(".1" in x and x.endswith("is True") for x in fs)
             ok = ok and (is_err or is_last)
             seen_rows |= ({"err"} if is_err else set()) | ({"last"} if is_last else set())
